@@ -331,7 +331,10 @@ def variant_runs(bins, seeds):
         for (i, code, lines) in res:
             ops, viols, probes, err = c18.parse_run(lines)
             if code != 0:
-                raise C.HarnessError("variant %s: runner crashed on run seed %d: %s" % (name, seeds[i], "\n".join(lines[-10:])))
+                # the process died inside a history (e.g. unbounded recursion of a grammar that is not well-founded):
+                # nothing this check judges; the run is dropped from the comparison and counted
+                runs.append(None)
+                continue
             runs.append([(o[5], o[6], o[2]) for o in ops])
         out[name] = runs
     return out
@@ -459,6 +462,7 @@ def run(tier, seed):
     var_ops = 0
     var_disagree = {}
     var_pairs_compared = 0
+    var_runs_lost = 0
     var_sample = None
     for start in range(0, n_var_runs, 10000):
         seeds = [C.mix(vbase, r) for r in range(start, min(n_var_runs, start + 10000))]
@@ -468,6 +472,9 @@ def run(tier, seed):
             if name == "default":
                 continue
             for ri, (a, b) in enumerate(zip(dflt, res[name])):
+                if a is None or b is None:
+                    var_runs_lost += 1
+                    continue
                 bm = {}
                 for (key, sem, ok) in b:
                     bm.setdefault(key, []).append(sem)
@@ -478,8 +485,8 @@ def run(tier, seed):
                     if sem not in bm[key]:
                         f = var_disagree.setdefault((name, key), [seeds[ri], 0])
                         f[1] += 1
-        var_ops += sum(len(r) for r in dflt)
-        if var_sample is None and dflt and dflt[0]:
+        var_ops += sum(len(r) for r in dflt if r is not None)
+        if var_sample is None and dflt and dflt[0] and all(res[n][0] for n in bins):
             var_sample = {"run_seed": seeds[0], "operation": dflt[0][0][0], "semantic_digest_per_variant": {n: res[n][0][0][1] for n in bins if res[n][0]}}
     # call sites of the recorded finding: rules reaching e+ / counted repetition under implicit skipping,
     # compared between variants that differ in pest_optimizer
@@ -540,6 +547,7 @@ def run(tier, seed):
         "variant_runs_per_variant": n_var_runs,
         "variant_operations_default": var_ops,
         "variant_operation_pairs_compared": var_pairs_compared,
+        "variant_runs_dropped_because_a_runner_died": var_runs_lost,
         "real_components": ["pest_typed_generator::derive_typed_parser (whole generator)", "pest_meta parser/validator/optimizer", "std HashMap/File/env", "rustc + pest_typed_derive for the variant builds",
                             "pest_typed runtime in the variant runners"],
         "stubbed_components": ["kernel entropy (getrandom), wall clock, read(2) chunking via envshim.so", "proc_macro bridge: proc_macro2 fallback in gensim", "ASLR (off)"],
